@@ -139,7 +139,7 @@ def run(prop, ev):
                 if not apply_patch(d, patch):
                     return {'mutant': m['id'], 'kind': m.get('kind'), 'status': 'skipped (patch does not apply to the current tree)'}, None
                 try:
-                    prog = engine.extract(repo=d, tag='mut', target=os.path.join(engine.CACHE, 'target-mut-%d' % slot))
+                    prog = engine.extract_scratch(d, target=os.path.join(engine.CACHE, 'target-mut-%d' % slot))
                 except engine.EngineError:
                     return {'mutant': m['id'], 'kind': m.get('kind'), 'status': 'skipped (does not compile on the current tree)'}, None
                 with RULES_LOCK:    # rule modules keep module-level scratch state: evaluate one program at a time
